@@ -99,7 +99,7 @@ def r2(ck):
     rule = "C18-R2"
     n = 0
     for fn in sorted(prog.fns.values(), key=lambda f: f.id):
-        news = [(bb, t) for bb, t in fn.calls() if (callee_of(t).get("rpath") or "").endswith("BufWriter::<W>::new") and not fn.blocks[bb]["cleanup"]]
+        news = [(bb, t) for bb, t in fn.calls() if (callee_of(t).get("rpath") or "").endswith(("BufWriter::<W>::new", "BufWriter::<W>::with_capacity", "LineWriter::<W>::new", "LineWriter::<W>::with_capacity")) and not fn.blocks[bb]["cleanup"]]
         if not news:
             continue
         fl = flush_sites(ck, fn)
